@@ -5,6 +5,7 @@ import (
 
 	"github.com/buildbuildio/pebbles/common"
 	"github.com/buildbuildio/pebbles/planner"
+	"github.com/vektah/gqlparser/v2/ast"
 )
 
 // findNextExecutionRequests inspects queryResult of current step and decides which requests need to be executed next on metadata inside step.Then.
@@ -78,13 +79,22 @@ func findNextExecutionRequestsAsync(
 ) ([]*ExecutionRequest, error) {
 	var nextExecutionRequests []*ExecutionRequest
 
+	// the result of a step underneath a `node(id: ???)` query is the object underneath the `node` field,
+	// the selection set has to start there too: the object can have a field named node itself
+	selectionSet := step.SelectionSet
+	if !common.IsRootObjectName(step.ParentType) && len(selectionSet) == 1 {
+		if nodeField, ok := selectionSet[0].(*ast.Field); ok && nodeField.Name == common.NodeFieldName {
+			selectionSet = nodeField.SelectionSet
+		}
+	}
+
 	res, err := common.AsyncMapReduce(
 		step.Then,
 		nextExecutionRequests,
 		func(field *planner.QueryPlanStep) ([]*ExecutionRequest, error) {
 			insertPoints, err := FindInsertionPoints(
 				field.InsertionPoint,
-				step.SelectionSet,
+				selectionSet,
 				queryResult,
 				[][]string{insertionPoint},
 			)
